@@ -4,4 +4,4 @@ cd /verif
 ids=$(python3 -c "import json;print(' '.join(c['property_id'] for c in json.load(open('MANIFEST.json'))['checks']))")
 TIER=${1:-quick}
 mkdir -p /var/tmp/lpverif/logs
-printf '%s\n' $ids | xargs -P 4 -I{} sh -c "./check {} --tier $TIER > /var/tmp/lpverif/logs/{}.log 2>&1; echo {} exit=\$? \$(grep -c VIOLATION /var/tmp/lpverif/logs/{}.log) violations \$(grep -c KNOWN-FINDING /var/tmp/lpverif/logs/{}.log) known"
+printf '%s\n' $ids | xargs -P 6 -I{} sh -c "./check {} --tier $TIER > /var/tmp/lpverif/logs/{}.log 2>&1; echo {} exit=\$? \$(grep -c VIOLATION /var/tmp/lpverif/logs/{}.log) violations \$(grep -c KNOWN-FINDING /var/tmp/lpverif/logs/{}.log) known"
